@@ -11,9 +11,15 @@ class Product:
 
 
 def call(name, args, kwargs, product=None):
+    import sys
+
     if product is None:
         product = Product(name)
-    LOG.append({"name": name, "args": args, "kwargs": kwargs, "product": product, "seq": len(LOG)})
+    # is the caller still what its module's name stands for, or a left-over of a module that was loaded anew since?
+    scope = sys._getframe(1).f_globals
+    current = sys.modules.get(scope.get("__name__"))
+    stale = current is None or vars(current) is not scope
+    LOG.append({"name": name, "args": args, "kwargs": kwargs, "product": product, "seq": len(LOG), "stale": stale})
     return product
 
 
